@@ -92,6 +92,11 @@ func lenFactBound(info *types.Info, root ast.Node, f cfgx.Fact, isX func(ast.Exp
 		return n + 1, true
 	case token.EQL:
 		return n, true
+	case token.NEQ:
+		// a length is not negative: len(x) != 0 means at least one element
+		if n == 0 {
+			return 1, true
+		}
 	}
 	return 0, false
 }
@@ -128,8 +133,12 @@ func c06(c *Ctx) {
 	// failure, which is outside the property)
 	var mainFns []*load.FuncInfo
 	if ap := c.P.Func("main.(*FSM).Apply"); ap != nil {
-		for _, fi := range c.moduleCallees(ap, true) {
-			if fi.Body() != nil && !scope[fi] && load.ShortPkg(fi.Pkg.PkgPath) == "main" {
+		for _, fi := range c.moduleCallees(ap, false) {
+			// … and the functions of the replicated packages that Apply reaches without going through ProcessMessage
+			// (UpdateLastClientMessageID, CreateSession, the decoders of package robust): they see the client's line too
+			switch pk := load.ShortPkg(fi.Pkg.PkgPath); {
+			case fi.Body() == nil || scope[fi]:
+			case pk == "main" || pk == "ircserver" || pk == "robust" || pk == "config":
 				mainFns = append(mainFns, fi)
 			}
 		}
@@ -174,13 +183,13 @@ func c06(c *Ctx) {
 		r.Check(ok, "C06.G1", f.PM.Name(), "dispatch enforces MinParams", c.P.Pos(f.PM.Node().Pos()), "cmd.Func called on the false edge of len(Params) < cmd.MinParams",
 			"the handler is invoked without the registry's MinParams having been enforced: every msg.Params[k] in the handlers is unguarded")
 	}
-	siteBound := func(fi *load.FuncInfo, g *cfgx.Graph, v int, isX func(ast.Expr) bool, entry int64) int64 {
+	siteBound := func(fi *load.FuncInfo, g *cfgx.Graph, at ast.Node, isX func(ast.Expr) bool, entry int64) int64 {
 		b := entry
 		if b == inf {
 			b = 0
 		}
 		info := fi.Info()
-		for _, fct := range g.FactsAt(v) {
+		for _, fct := range g.FactsAtNode(at) {
 			if n, ok := lenFactBound(info, fi.Node(), fct, isX); ok && n > b {
 				b = n
 			}
@@ -227,9 +236,9 @@ func c06(c *Ctx) {
 						if id, ok := a.(*ast.Ident); ok {
 							o := astx.Obj(info, id)
 							if o == mp && mp != nil {
-								nb = siteBound(fi, g, g.VertexOf(call), isParamsOf(info, mp), bound[fi])
+								nb = siteBound(fi, g, call, isParamsOf(info, mp), bound[fi])
 							} else {
-								nb = siteBound(fi, g, g.VertexOf(call), isParamsOf(info, o), 0)
+								nb = siteBound(fi, g, call, isParamsOf(info, o), 0)
 							}
 						}
 					}
@@ -267,9 +276,8 @@ func c06(c *Ctx) {
 					low, what = k+1, "msg.Params["+itoa(int(k))+"]"
 				} else {
 					// variable index: needs a dominating len(Params) > idx with the same expression
-					v := g.VertexOf(x)
 					ok := false
-					for _, fct := range g.FactsAt(v) {
+					for _, fct := range g.FactsAtNode(x) {
 						if be, isBE := ast.Unparen(fct.Expr).(*ast.BinaryExpr); isBE && fct.Tag == nil && fct.Val && be.Op == token.GTR {
 							if call, isC := ast.Unparen(be.X).(*ast.CallExpr); isC && astx.Builtin(info, call) == "len" && isX(call.Args[0]) && astx.Same(info, be.Y, x.Index) {
 								ok = true
@@ -303,7 +311,7 @@ func c06(c *Ctx) {
 				return true
 			}
 			nG1++
-			b := siteBound(fi, g, g.VertexOf(node), isX, bound[fi])
+			b := siteBound(fi, g, node, isX, bound[fi])
 			switch {
 			case b >= low:
 				r.Ok("C06.G1", fi.Name(), what, c.P.Pos(node.Pos()), "at least "+itoa(int(b))+" parameters on every path (entry bound "+boundStr(bound[fi])+")")
@@ -430,6 +438,30 @@ func (c *Ctx) c06Index(f *ircFacts, fns []*load.FuncInfo, serverOnly func(*load.
 					for _, fct := range facts {
 						if nb, ok := lenFactBound(info, fi.Node(), fct, sameX); ok && nb > b {
 							b = nb
+						}
+					}
+					// strings.HasPrefix(operand, "lit") (also of the lower-cased operand: every ASCII character of the match
+					// comes from at least one byte of the operand) proves len(operand) >= len("lit")
+					for _, fct := range facts {
+						hc, ok := ast.Unparen(fct.Expr).(*ast.CallExpr)
+						if !ok || !fct.Val || fct.Tag != nil || len(hc.Args) != 2 {
+							continue
+						}
+						if fn := astx.Callee(info, hc); fn == nil || !isFunc(fn, "strings", "HasPrefix") {
+							continue
+						}
+						lit, isC := astx.ConstString(info, hc.Args[1])
+						if !isC {
+							continue
+						}
+						a0 := ast.Unparen(hc.Args[0])
+						if lc, ok := a0.(*ast.CallExpr); ok {
+							if lf := astx.Callee(info, lc); lf != nil && isFunc(lf, "strings", "ToLower") && len(lc.Args) == 1 {
+								a0 = ast.Unparen(lc.Args[0])
+							}
+						}
+						if sameX(a0) && int64(len(lit)) > b {
+							b = int64(len(lit))
 						}
 					}
 					if b >= need {
